@@ -365,10 +365,17 @@ pub fn run_case<V: VringT<GM> + Clone + Send + Sync + 'static>(case: &Value, tra
                 let size = from_limbs(&step["size"]);
                 let off = from_limbs(&step["off"]);
                 let total = off + size + 0x2000;
-                let f = memfd("dirtylog", total);
-                // guard bytes around the window
-                file_write_at(&f, 0, &vec![0xAAu8; off as usize]);
-                file_write_at(&f, off + size, &vec![0xAAu8; 0x2000]);
+                // `same`: the log that is in force is sent again (same file, offset, size) instead of a fresh one
+                let reuse = step["same"].as_bool().unwrap_or(false) && matches!(&log_guard, Some((_, o, s, _)) if *o == off && *s == size);
+                let f = if reuse {
+                    log_guard.as_ref().unwrap().0.try_clone().unwrap()
+                } else {
+                    let f = memfd("dirtylog", total);
+                    // guard bytes around the window
+                    file_write_at(&f, 0, &vec![0xAAu8; off as usize]);
+                    file_write_at(&f, off + size, &vec![0xAAu8; 0x2000]);
+                    f
+                };
                 let mut body = size.to_le_bytes().to_vec();
                 body.extend_from_slice(&off.to_le_bytes());
                 let r = rig.peer.request(6, &body, &[f.as_raw_fd()], true);
